@@ -218,11 +218,126 @@ def strat_transform(draw, tier):
     return case
 
 
+# ------------------------------------------------------------------ (c) multi-image study tiling
+
+
+def make_rec_pio(base_dir, fmt, world, log):
+    from toasty.pyramid import PyramidIO
+
+    class RecPio(PyramidIO):
+        """records every read-modify-write of a tile with the process that did it"""
+
+        def __deepcopy__(self, memo):
+            return self
+
+        def update_image(self, pos, **kw):
+            log.append((tuple(pos), world.current_pid() if world is not None else 0))
+            return PyramidIO.update_image(self, pos, **kw)
+
+    return RecPio(base_dir, default_format=fmt)
+
+
+def exec_multi_tan(case):
+    import os
+    import warnings
+    from collections import Counter as C
+    from toasty import collection, multi_tan
+    from toasty.builder import Builder
+    from ..core import fresh_dir
+    from .. import mtgen
+
+    k = case["k"]
+    desc = {a: b for a, b in case.items() if a != "sched"}
+    classes = ["multi_tan", f"k{k}", f"inputs{len(case['rects'])}"]
+    logs = {}
+    with fresh_dir("c03mt-") as d:
+        ind = os.path.join(d, "in")
+        os.makedirs(ind)
+        paths, exp, box = mtgen.write_inputs(case, ind)
+        canvas_exp, levels = mtgen.expected_canvas(exp)
+        w = None
+        for label, kk in (("serial", 1), ("parallel", k)):
+            if label == "parallel" and k == 1:
+                continue
+            log = []
+            world = SimWorld(case.get("sched")) if kk > 1 else None
+            pio = make_rec_pio(os.path.join(d, label), case["tile_format"], world, log)
+            with warnings.catch_warnings():
+                warnings.simplefilter("ignore")
+                proc = multi_tan.MultiTanProcessor(collection.load(paths))
+                try:
+                    proc.compute_global_pixelization(Builder(pio))
+                except Exception as e:  # noqa
+                    raise Violation("terminates", f"compute_global_pixelization raised {type(e).__name__}: {e}")
+                if kk == 1:
+                    try:
+                        proc.tile(pio, parallel=1)
+                    except Exception as e:  # noqa
+                        raise Violation("terminates", f"serial tiling raised {type(e).__name__}: {e}")
+                else:
+                    w, res = scen.run_sim(lambda: proc.tile(pio, parallel=kk), None, world=world)
+                    judge_termination(desc, res, w)
+                    judge_workers(desc, w)
+                    if w.leftovers():
+                        raise Violation("exactly-once", f"{w.leftovers()} input image(s) left in the queue at return; case {desc}")
+                    sim_facts(w, classes)
+            logs[label] = C(p for p, _pid in log)
+            got, _present = mtgen.read_canvas(pio, levels, case["tile_format"])
+            if not np.array_equal(got, canvas_exp, equal_nan=True):
+                ne = ~((got == canvas_exp) | (np.isnan(got) & np.isnan(canvas_exp)))
+                raise Violation("exactly-once", f"{label} tiling with k={kk}: {int(ne.sum())} pixels of the result differ from the assembled inputs (an input was lost or misplaced); case {desc}")
+        if "parallel" in logs and logs["parallel"] != logs["serial"]:
+            diff = {p: (logs["serial"].get(p, 0), logs["parallel"].get(p, 0)) for p in set(logs["serial"]) | set(logs["parallel"]) if logs["serial"].get(p, 0) != logs["parallel"].get(p, 0)}
+            raise Violation("exactly-once", f"tile updates (serial, parallel) differ: {dict(list(diff.items())[:4])}; case {desc}")
+    n = len(case["rects"])
+    nt = k >= 2 and (n > 2 * k or (w is not None and (w.timeouts_fired_with_buffered > 0 or w.put_blocked > 0 or w.deviations > 0)))
+    return Outcome(classes=classes, nontrivial=bool(nt), info={"items": n})
+
+
+@st.composite
+def strat_multi_tan(draw, tier):
+    from .. import mtgen
+
+    case = draw(mtgen.mosaic_cases(tier, max_size=400, max_inputs=8))
+    case["k"] = draw(st.sampled_from([2, 2, 3, 4]))
+    case["sched"] = draw(scen.schedules(max_size=150))
+    return case
+
+
+def exec_walk_items(case):
+    """the walk also hands tiles to workers: same item set as the serial walk (RefPyramid.ops)"""
+    from .c01 import exec_walk
+
+    out = exec_walk(case)
+    out.classes = ["walk"] + out.classes
+    return out
+
+
 def strat_leaves(tier):
     return scen.pyramid_cases(3 if tier == "quick" else 5)
 
 
 PARTS = [
+    Part(
+        "multi_tan_sim",
+        exec_multi_tan,
+        strategy=strat_multi_tan,
+        examples={"quick": 160, "thorough": 6000},
+        shards={"quick": 16, "thorough": 16},
+        budget_s={"quick": 70, "thorough": 1500},
+        engine="A",
+        describe="multi-image study tiling: 1-8 generated sub-images handed to 2-4 workers under generated schedules; tile-update log and result vs serial",
+    ),
+    Part(
+        "walk_items_sim",
+        exec_walk_items,
+        strategy=lambda tier: scen.pyramid_cases(3 if tier == "quick" else 5),
+        examples={"quick": 800, "thorough": 50000},
+        shards={"quick": 16, "thorough": 16},
+        budget_s={"quick": 60, "thorough": 900},
+        engine="A / serial for k=1",
+        describe="the walk's distribution of parent tiles to workers (item set = RefPyramid.ops; C01 checks the ordering)",
+    ),
     Part(
         "visit_leaves_sim",
         exec_leaves,
